@@ -435,6 +435,9 @@ func (w *world) run(id string, a attempt, who string, spName string, depth int) 
 	}
 	resp := cl.Do(a.req)
 	c.Eval(1)
+	if os.Getenv("C04_DEBUG") != "" && a.param == os.Getenv("C04_DEBUG") {
+		fmt.Fprintf(os.Stderr, "C04_DEBUG %s %s %s d%d %s q=%s -> %s %.120s\n", w.name, a.op, spName, depth, who, a.req.Query, resp.String(), resp.Body)
+	}
 	sigBase := fmt.Sprintf("%s:%s:%s", a.param, a.op, who)
 	det := map[string]any{"param": a.param, "op": a.op, "caller": who, "spelling": spName, "depth": depth, "method": a.req.Method,
 		"wire_path": a.req.Path, "query": a.req.Query, "headers": fmt.Sprint(a.req.Header), "status": resp.String()}
@@ -685,8 +688,16 @@ func Run(c *ev.Ctx) int {
 		}
 		cfg := gw.Config{Versioning: true}
 		if wi%2 == 1 && (c.Thorough() || wi == 1) {
-			// the sidecar store turns object names AND attribute names into paths
+			// the sidecar store turns object names AND attribute names into paths; it always gets the plain
+			// spelling too (the only one that is a traversal in values that are decoded once)
 			cfg.Sidecar = true
+			hasRaw := false
+			for _, s := range mine {
+				hasRaw = hasRaw || s.name == "raw"
+			}
+			if !hasRaw {
+				mine = append([]spelling{spellings[0]}, mine...)
+			}
 		}
 		wg.Add(1)
 		go func(wi int, mine []spelling, cfg gw.Config) {
